@@ -112,6 +112,8 @@ for _u, _fns in (("f64x", ["f64::ExtensibleField<2>::{mul,square,mul_base,froben
                  ("f128x", ["f128::ExtensibleField<2>::{mul,mul_base,frobenius}"])):
     verus_unit(_u, _u, ["C08"], _fns)
 
+verus_unit("extinv", "extinv", ["C08"], ["QuadExtension::inv", "CubeExtension::inv"])
+
 PROPS["C08"] = dict(
     level="proof", verus=True,
     level_text="The bodies of every ExtensibleField<2>/<3> implementation (mul, square, mul_base, frobenius for the 62-, 64- and "
@@ -119,7 +121,8 @@ PROPS["C08"] = dict(
                "schoolbook product reduced by the documented irreducible polynomial (resp. the documented conjugation map), "
                "modulo p, for all operands; the proof bookkeeping is generated mechanically from the body text.",
     level_note="Assumed (cross-unit): the residue-level contracts of the base-field operators (+, -, *, neg, double, square, new), "
-               "which C07's units establish for the real code. Not covered by this check: QuadExtension/CubeExtension::inv, the "
+               "which C07's units establish for the real code. Extension inversion is decided structurally only (zero test on every coefficient, the norm-based formula, the "
+               "code's debug assertions) against an abstract base field; that the formula is the inverse is assumed. Not covered: the "
                "generic wrapper types' operator plumbing, the Frobenius constants being phi^p (they are compared with the documented "
                "values only), slice reinterpretation.",
     explanation="",
